@@ -156,8 +156,8 @@ PROPS = {
     ),
     "C03": dict(
         level="proof",
-        modules=["Exmex.Props.C03", "Exmex.Props.C02"],
-        theorems=["Exmex.C03.fromDeep_sound"],
+        modules=["Exmex.Props.C03", "Exmex.Props.C03ToDeep", "Exmex.Props.C02", "Exmex.Props.C02Deep"],
+        theorems=["Exmex.C03.fromDeep_sound", "Exmex.C03.toDeep_sound", "Exmex.C02.deep_compile_sound"],
         rule="random chains x tables x renderings: FlatEx::parse, DeepEx::parse, to_deepex, from_deepex and random conversion histories of length 0..6; variable lists and symbolic values compared with the documented value; operator listings of both forms checked to be sorted, duplicate-free, to contain every operator applied to a variable-dependent operand and nothing absent from the text; non-trivial = at least two binary operators; distinct by request hash",
         kinds=[dict(kind="forms", quick=24000, thorough=800000,
                     corr=["f", "d", "f2d", "d2f", "h", "fvars", "dvars", "f2dvars", "d2fvars", "hvars", "br", "ur", "or", "dbr", "dur", "dor", "dtext", "f2dtext", "htext"],
